@@ -5,15 +5,10 @@ use super::env::*;
 use super::h_alloc::{NA, NS};
 use super::h_stor::*;
 use super::util::*;
-use super::lockty::RwLock;
 use crate::internal::alloc::vacc as aacc;
-use crate::internal::directory::vacc as dacc;
-use crate::internal::minialloc::vacc as macc;
 use crate::internal::sector::vacc as secacc;
-use crate::internal::stream::vacc as sacc;
-use crate::internal::{MiniAllocator, Sectors, Stream, Version};
+use crate::internal::{Sectors, Version};
 use std::io::{Read, Seek, SeekFrom, Write};
-use std::sync::Arc;
 
 /// Backend in which exactly the `at`-th call among the enabled kinds
 /// (read / write / seek / flush) fails once the harness has armed it.  `at` is
@@ -76,7 +71,6 @@ impl<T: Seek> Seek for FaultAt<T> {
 }
 
 pub const NFI: usize = 3072; // header + 5 sectors: the fault scenarios allocate nothing
-pub type FF = FaultAt<PtrFile<NFI>>;
 
 /// Result without io::Error's drop glue (see h_cache.rs::split).
 fn okv<T>(r: std::io::Result<T>) -> Option<T> {
@@ -88,156 +82,6 @@ fn okv<T>(r: std::io::Result<T>) -> Option<T> {
         }
     }
 }
-
-/// `img` must stay where it is (the file points into it).  A 3 KB copy of the
-/// image keeps symbolic-offset accesses (every access after an injected error is
-/// symbolic to CBMC, see DESIGN.md) at a 3072-way instead of a 7680-way split.
-fn mk_faulty(p: &mut Parts, img: &mut [u8; NFI]) -> MiniAllocator<FF> {
-    img[..SEC * (1 + NSA)].copy_from_slice(&p.data[..SEC * (1 + NSA)]);
-    let file = FaultAt { f: PtrFile::over(img, p.len), armed: false, at: 0, calls: 0, injected: 0, fail_reads: false, fail_writes: false, fail_seeks: false, fail_flush: false };
-    assemble(file, p.len, std::mem::take(&mut p.fat), std::mem::take(&mut p.entries), std::mem::take(&mut p.mf), std::mem::take(&mut p.mfree))
-}
-
-fn file_of(m: &mut MiniAllocator<FF>) -> &mut FF {
-    secacc::inner_mut(aacc::sectors_mut(dacc::allocator_mut(macc::directory_mut(m))))
-}
-
-fn arm(arc: &Arc<RwLock<MiniAllocator<FF>>>, reads: bool, writes: bool, seeks: bool, flush: bool, at: Option<usize>) {
-    let mut g = arc.write().unwrap();
-    let f = file_of(&mut g);
-    f.armed = at.is_some();
-    f.at = at.unwrap_or(0);
-    f.calls = 0;
-    f.fail_reads = reads;
-    f.fail_writes = writes;
-    f.fail_seeks = seeks;
-    f.fail_flush = flush;
-}
-
-fn injected(arc: &Arc<RwLock<MiniAllocator<FF>>>) -> u32 {
-    let mut g = arc.write().unwrap();
-    file_of(&mut g).injected
-}
-
-// C12: a failed read (or seek) during a buffer refill never turns into wrong
-// data on retry; position is unchanged by the failed call.  (variant buf8:
-// 8-byte window, so the second read needs a refill.)
-macro_rules! c12_read_fault {
-    ($name:ident, $at:expr) => {
-#[kani::proof]
-#[kani::stub(std::fmt::format, stub_format)]
-#[kani::stub(crate::internal::stream::Stream::minialloc, sacc::stub_upgrade)]
-#[kani::unwind(40)]
-fn $name() {
-    let mut p = small_parts(&[1, EOC, EOC], 0, 100, 2, 64);
-    let mut content = [0u8; 100];
-    content.copy_from_slice(&p.data[soff(3)..soff(3) + 100]);
-    let mut i;
-    let mut img = [0u8; NFI];
-    let arc = Arc::new(RwLock::new(mk_faulty(&mut p, &mut img)));
-    let mut s = Stream::new(&arc, 1, 0);
-    let mut b = [0u8; 8];
-    let r = okv(s.read(&mut b));
-    assert!(r == Some(8), "C06: first read");
-    let mut ok = true;
-    i = 0;
-    while i < 8 { ok &= b[i] == content[i]; i += 1; }
-    assert!(ok, "C06: first window");
-    arm(&arc, true, false, true, false, Some($at));
-    let mut b2 = [0u8; 8];
-    let r1 = okv(s.read(&mut b2));
-    arm(&arc, false, false, false, false, None);
-    let pos = sacc::position(&s);
-    match r1 {
-        Some(n) => {
-            assert!(n > 0 && n <= 8 && pos == 8 + n as u64, "C12: read result/position");
-            ok = true;
-            i = 0;
-            while i < n { ok &= b2[i] == content[8 + i]; i += 1; }
-            assert!(ok, "C12: a read that returned Ok under fault injection returned wrong bytes");
-        }
-        None => {
-            assert!(pos == 8, "C12: failed read moved the position");
-            let r2 = okv(s.read(&mut b2));
-            assert!(r2.is_some(), "C12: retry after a transient fault failed");
-            let n = r2.unwrap();
-            assert!(n > 0 && n <= 8, "C12: retry returned nothing");
-            ok = true;
-            i = 0;
-            while i < n { ok &= b2[i] == content[8 + i]; i += 1; }
-            assert!(ok, "C12: retry after a failed read returned wrong bytes (stale window)");
-        }
-    }
-    kani::cover!(injected(&arc) == 1 || $at >= 4, "a fault was injected (or the refill needs fewer calls)");
-    std::mem::forget(s);
-    std::mem::forget(arc);
-}
-    };
-}
-c12_read_fault!(c12_read_fault_at0, 0);
-c12_read_fault!(c12_read_fault_at1, 1);
-c12_read_fault!(c12_read_fault_at2, 2);
-c12_read_fault!(c12_read_fault_at3, 3);
-c12_read_fault!(c12_read_fault_at5, 5);
-
-// C13: a failed write-back is reported; a later flush that returns Ok means
-// the bytes are stored (also after an earlier failed flush).
-macro_rules! c13_flush_fault {
-    ($name:ident, $at:expr) => {
-#[kani::proof]
-#[kani::stub(std::fmt::format, stub_format)]
-#[kani::stub(std::io::copy, stub_io_copy)]
-#[kani::stub(crate::internal::stream::Stream::minialloc, sacc::stub_upgrade)]
-#[kani::unwind(40)]
-fn $name() {
-    let mut p = small_parts(&[1, EOC, EOC], 0, 100, 2, 64);
-    let mut img = [0u8; NFI];
-    let arc = Arc::new(RwLock::new(mk_faulty(&mut p, &mut img)));
-    let mut s = Stream::new(&arc, 1, 0);
-    assert!(s.seek(SeekFrom::Start(60)).is_ok());
-    let w: [u8; 6] = kani::any();
-    let r = okv(s.write(&w));
-    assert!(r == Some(6), "C06: buffered write");
-    arm(&arc, false, true, true, true, Some($at));
-    let r1 = okv(s.flush());
-    let inj = injected(&arc);
-    arm(&arc, false, false, false, false, None);
-    if inj == 1 {
-        assert!(r1.is_none(), "C13: a write/seek/flush failure of the underlying file during flush was swallowed");
-    }
-    let r2 = okv(s.flush());
-    assert!(r2.is_some() || r1.is_none(), "C13: flush failed although no fault is injected any more and the first flush succeeded");
-    if r2.is_some() {
-        // fresh handle reads the bytes back
-        let mut t = Stream::new(&arc, 1, 0);
-        assert!(t.seek(SeekFrom::Start(60)).is_ok());
-        let mut back = [0u8; 6];
-        let mut got = 0;
-        while got < 6 {
-            let r = okv(t.read(&mut back[got..]));
-            assert!(r.is_some(), "C13: reading back failed");
-            let n = r.unwrap();
-            assert!(n > 0, "C13: stream shorter than the bytes written");
-            got += n;
-        }
-        let mut ok = true;
-        let mut i = 0;
-        while i < 6 { ok &= back[i] == w[i]; i += 1; }
-        assert!(ok, "C13: flush returned Ok but the bytes accepted by write are not in the compound file");
-        std::mem::forget(t);
-    }
-    kani::cover!((inj == 1 && r2.is_some()) || $at >= 8, "failed flush followed by a successful one (or the write-back needs fewer calls)");
-    std::mem::forget(s);
-    std::mem::forget(arc);
-}
-    };
-}
-c13_flush_fault!(c13_flush_fault_at0, 0);
-c13_flush_fault!(c13_flush_fault_at1, 1);
-c13_flush_fault!(c13_flush_fault_at2, 2);
-c13_flush_fault!(c13_flush_fault_at4, 4);
-c13_flush_fault!(c13_flush_fault_at7, 7);
-c13_flush_fault!(c13_flush_fault_at10, 10);
 
 // C13: a fault while freeing a chain is reported; the allocator's tables stay
 // usable (no sector is on the free list twice, every listed sector is FREE),
